@@ -24,7 +24,7 @@
 (* _get_reverse_slice, the four _get_*_slice_from_*_seqview_, __len__,        *)
 (* parent_start / parent_stop, SeqView.copy / to_rich_dict, transcribed       *)
 (* statement for statement.                                                    *)
-EXTENDS Integers, Sequences, TLC, Emit, PySlice
+EXTENDS Integers, Sequences, TLC, Emit, PySlice, SeqViewSymbols
 
 CONSTANTS MinL, MaxL, \* root lengths MinL..MaxL
           Offsets,   \* annotation offsets of the initial roots
@@ -45,15 +45,7 @@ StepsSmall == {None, 1, -1, 2, -2}
 Alt == 99
 Mols == {"dna", "rna"}
 
-(* ---- symbol tables the harness renders displays with ----------------------- *)
-ComplDna == [A |-> "T", C |-> "G", G |-> "C", T |-> "A", R |-> "Y", Y |-> "R",
-             M |-> "K", K |-> "M", S |-> "S", W |-> "W", H |-> "D", D |-> "H",
-             B |-> "V", V |-> "B", N |-> "N"]
-ComplRna == [A |-> "U", C |-> "G", G |-> "C", U |-> "A", R |-> "Y", Y |-> "R",
-             M |-> "K", K |-> "M", S |-> "S", W |-> "W", H |-> "D", D |-> "H",
-             B |-> "V", V |-> "B", N |-> "N"]
-SelfCompl == <<"-", "?">>                      \* gap symbols complement to themselves
-Exchange == [dna |-> [U |-> "T"], rna |-> [T |-> "U"]]   \* conversion to dna / to rna
+(* the symbol tables the harness renders displays with are in SeqViewSymbols *)
 
 (* =========================== implementation model ========================== *)
 
